@@ -56,9 +56,8 @@ deriving Repr, DecidableEq
 def swInitialize (c : SWCfg) : Except SWInitErr SWCfg :=
   if c.version = 0 then .error .noVersion
   else if c.sysId < 1 then .error .sysId
-  else
-    let c := if c.compId < 1 then { c with compId := 1 } else c
-    if c.key.isSome && c.version ≠ 2 then .error .keyNeedsV2 else .ok c
+  else if c.key.isSome && c.version ≠ 2 then .error .keyNeedsV2
+  else .ok { c with compId := if c.compId < 1 then 1 else c.compId }
 
 structure SWState where
   nextSeq : UInt8 := 0
